@@ -29,7 +29,8 @@
       x/rvesting/keeper/genesis.go, types/genesis.go (parameters and BeginBlocker: Model/Rvesting.v)
     cosmos-sdk v0.45.2: gov ValidateAbstract, MsgSubmitProposal decoding (Any
     unpacking), sdk.ValidateDenom, Coins.Validate, prefix store key assertion. *)
-From Teleport Require Import Base.Bytes Base.Outcome Model.Rvesting.
+From Coq Require Import String.
+From Teleport Require Import Base.Bytes Base.Outcome Model.Rvesting Model.HaltGuardIR Gen.HaltGuardsGen.
 Local Open Scope N_scope.
 
 Definition two64 : N := 18446744073709551616.
@@ -177,45 +178,73 @@ Definition validate_tm (chain_id : bytes) (tl_num tl_den : N) (trusting unbondin
   else if nspecs =? 0 then Err        (* ProofSpecs == nil: a decoded empty list is nil *)
   else Ok tt.
 
-(** bsc Header.ToBscHeader: BytesToBloom / BytesToBlockNonce panic on over-long input. *)
+(** bsc Header.ToBscHeader: BytesToBloom / BytesToBlockNonce ([Bloom.SetBytes], [BlockNonce.SetBytes] of
+    bsc.go) panic on input longer than the array ([bloomByteLength], [nonceByteLength]: regenerated constants). *)
 Definition to_bsc_header (hd : header) : outcome unit :=
-  if 256 <? hd_bloom_len hd then Panic else if 8 <? hd_nonce_len hd then Panic else Ok tt.
+  if bsc_bloom_byte_length <? hd_bloom_len hd then Panic else if bsc_nonce_byte_length <? hd_nonce_len hd then Panic else Ok tt.
 
-(** bsc Header.ValidateBasic (HEAD: rejects over-long bloom / nonce first). *)
-Definition bsc_header_validate_gen (len_checks : bool) (hd : header) : outcome unit :=
-  if len_checks && (256 <? hd_bloom_len hd) then Err
-  else if len_checks && (8 <? hd_nonce_len hd) then Err
-  else if hd_extra_len hd <? 32 then Err
-  else if hd_extra_len hd <? 97 then Err
-  else if negb (bytes_eqb (bytes_to_hash (hd_mix hd)) zero_hash) then Err
+(** What the regenerated guards (Gen/HaltGuardsGen.v, from the Go source of Header.ValidateBasic / ecrecover of
+    both header types) may talk about: field paths of the Go [Header]. *)
+Definition header_env (hd : header) : genv :=
+  {| g_len := [("Bloom", hd_bloom_len hd); ("Nonce", hd_nonce_len hd); ("Extra", hd_extra_len hd);
+               ("MixDigest", lenN (hd_mix hd)); ("UncleHash", lenN (hd_uncle hd)); ("Difficulty", lenN (hd_diff hd))]%string;
+     g_fld := [("GasLimit", hd_gas_limit hd); ("GasUsed", hd_gas_used hd);
+               ("Height.RevisionHeight", h_ht (hd_height hd)); ("Height.RevisionNumber", h_rev (hd_height hd))]%string |}.
+
+(** The part of bsc Header.ValidateBasic that the translator leaves opaque (hash comparisons) and the nested
+    difficulty test, which converts the header. *)
+Definition bsc_header_validate_rest (hd : header) : outcome unit :=
+  if negb (bytes_eqb (bytes_to_hash (hd_mix hd)) zero_hash) then Err
   else if negb (bytes_eqb (bytes_to_hash (hd_uncle hd)) uncle_hash) then Err
   else if 0 <? h_ht (hd_height hd) then
     (_ <- to_bsc_header hd ;; if big_uint64 (hd_diff hd) =? 0 then Err else Ok tt)
   else Ok tt.
 
-Definition validate_bsc (hd : header) (epoch : N) : outcome unit :=
-  if epoch =? 0 then Err else bsc_header_validate_gen true hd.
-(** pinned commit: no epoch check, no length checks *)
-Definition validate_bsc_old (hd : header) (epoch : N) : outcome unit := bsc_header_validate_gen false hd.
+(** The environment of a ClientState.Validate: its own unsigned fields and the header's under "Header." (the
+    translator inlines the tail call [return m.Header.ValidateBasic()] and prefixes the paths). *)
+Definition prefixed (p : string) (l : list (string * N)) : list (string * N) := map (fun kv => ((p ++ fst kv)%string, snd kv)) l.
+Definition client_env (hd : header) (flds : list (string * N)) : genv :=
+  {| g_len := prefixed "Header." (g_len (header_env hd)); g_fld := flds ++ prefixed "Header." (g_fld (header_env hd)) |}.
 
-(** eth Header.ToEthHeader: types.BytesToBloom panics on more than 256 bytes. *)
+(** pinned commit (hand transcription, kept for Refuted/): only the two extra-data length checks *)
+Definition bsc_header_validate_old (hd : header) : outcome unit :=
+  if hd_extra_len hd <? 32 then Err else if hd_extra_len hd <? 97 then Err else bsc_header_validate_rest hd.
+
+Definition bsc_client_env (hd : header) (chain_id epoch trusting : N) : genv :=
+  client_env hd [("ChainId", chain_id); ("Epoch", epoch); ("TrustingPeriod", trusting)]%string.
+
+(** bsc ClientState.Validate at /repo HEAD: the REGENERATED guards of Validate and of the Header.ValidateBasic it
+    ends in (Epoch == 0; lengths of bloom, nonce, extra data), then the hand-written remainder. *)
+Definition validate_bsc (hd : header) (chain_id epoch trusting : N) : outcome unit :=
+  if guards_reject (bsc_client_env hd chain_id epoch trusting) bsc_client_validate_guards then Err else bsc_header_validate_rest hd.
+(** pinned commit: no epoch check, no length checks *)
+Definition validate_bsc_old (hd : header) : outcome unit := bsc_header_validate_old hd.
+
+(** eth Header.ToEthHeader: go-ethereum's types.BytesToBloom panics on more than BloomByteLength = 256 bytes. *)
 Definition to_eth_header (hd : header) : outcome unit := if 256 <? hd_bloom_len hd then Panic else Ok tt.
 
-Definition eth_header_validate_gen (len_check : bool) (hd : header) : outcome unit :=
-  if len_check && (256 <? hd_bloom_len hd) then Err
-  else if two63 - 1 <? hd_gas_limit hd then Err
-  else if hd_gas_limit hd <? hd_gas_used hd then Err
-  else if 0 <? h_ht (hd_height hd) then
+Definition eth_header_validate_rest (hd : header) : outcome unit :=
+  if 0 <? h_ht (hd_height hd) then
     (_ <- to_eth_header hd ;; if big_uint64 (hd_diff hd) =? 0 then Err else Ok tt)
   else Ok tt.
-Definition validate_eth := eth_header_validate_gen true.
-Definition validate_eth_old := eth_header_validate_gen false.
+
+Definition eth_client_env (hd : header) (trusting : N) : genv := client_env hd [("TrustingPeriod", trusting)]%string.
+
+(** eth ClientState.Validate = Header.ValidateBasic at HEAD: regenerated guards (bloom length, gas limit cap, gas
+    used), then the nested difficulty test. *)
+Definition validate_eth (hd : header) (trusting : N) : outcome unit :=
+  if guards_reject (eth_client_env hd trusting) eth_client_validate_guards then Err else eth_header_validate_rest hd.
+(** pinned commit: no bloom length check *)
+Definition validate_eth_old (hd : header) : outcome unit :=
+  if two63 - 1 <? hd_gas_limit hd then Err
+  else if hd_gas_limit hd <? hd_gas_used hd then Err
+  else eth_header_validate_rest hd.
 
 Definition validate_client_gen (old : bool) (cs : client_state) : outcome unit :=
   match cs with
   | CsTM c n d t u dr l s => validate_tm c n d t u dr l s
-  | CsBSC hd _ epoch _ _ => if old then validate_bsc_old hd epoch else validate_bsc hd epoch
-  | CsETH hd _ => if old then validate_eth_old hd else validate_eth hd
+  | CsBSC hd chain_id epoch trusting _ => if old then validate_bsc_old hd else validate_bsc hd chain_id epoch trusting
+  | CsETH hd trusting => if old then validate_eth_old hd else validate_eth hd trusting
   | CsTSS addr_ok => if addr_ok then Ok tt else Err
   end.
 Definition validate_client := validate_client_gen false.
@@ -229,7 +258,14 @@ Inductive xprop :=
 | PCreate (title : bytes) (desc_len : N) (chain : bytes) (cs : any client_state) (kst : any cons_state)
 | PUpgrade (title : bytes) (desc_len : N) (chain : bytes) (cs : any client_state) (kst : any cons_state)
 | PToggle (title : bytes) (desc_len : N) (chain : bytes) (cs : any client_state) (kst : any cons_state)
-| PRelayer (title : bytes) (desc_len : N) (addr_ok : bool) (chains : list bytes) (n_addresses : N).
+| PRelayer (title : bytes) (desc_len : N)
+           (addr : bytes)          (* the Address string: it becomes the store key of the relayer *)
+           (addr_decodes : bool)   (* oracle: bech32 decoding, prefix and length verification of a non-blank string succeed *)
+           (chains : list bytes) (n_addresses : N).
+
+(** sdk.AccAddressFromBech32 (cosmos-sdk v0.45.2 types/address.go): a blank string ([strings.TrimSpace] empty) is
+    refused before anything is decoded. *)
+Definition acc_address_from_bech32 (addr : bytes) (decodes : bool) : bool := negb (blank addr) && decodes.
 
 Definition is_wrong {A} (a : any A) : bool := match a with AnyWrong => true | _ => false end.
 
@@ -244,9 +280,9 @@ Definition client_prop_validate (old : bool) (title : bytes) (desc_len : N) (cha
 Definition xprop_validate_gen (old : bool) (p : xprop) : outcome unit :=
   match p with
   | PCreate t d ch cs kst | PUpgrade t d ch cs kst | PToggle t d ch cs kst => client_prop_validate old t d ch cs kst
-  | PRelayer t d addr_ok chains n_addr =>
+  | PRelayer t d addr decodes chains n_addr =>
       if negb (abstract_ok t d) then Err
-      else if negb addr_ok then Err
+      else if negb (acc_address_from_bech32 addr decodes) then Err
       else if (n_addr =? 0) || negb (n_addr =? lenN chains) then Err
       else if forallb identifier_ok chains then Ok tt else Err
   end.
@@ -372,14 +408,16 @@ Section Clients.
   (** bsc ecrecover + the coinbase comparison.  [old]: the chain id goes through
       big.NewInt(int64(ChainId)); rlp refuses a negative big.Int and encodeSigHeader panics. *)
   Definition bsc_recover (old : bool) (hd : header) (chain_id : N) (seal_ok : bool) : outcome unit :=
-    if hd_extra_len hd <? 65 then Err
+    if guards_reject (header_env hd) bsc_ecrecover_guards then Err     (* regenerated: len(header.Extra) < extraSeal *)
+    else if (hd_extra_len hd <? bsc_extra_seal) || (hd_extra_len hd <? 65) then
+      Panic     (* header.Extra[len(header.Extra)-extraSeal:], then encodeSigHeader: header.Extra[:len(header.Extra)-65] *)
     else if old && (two63 <=? chain_id) then Panic
     else if seal_ok then Ok tt else Err.
 
-  (** bsc ParseValidators: extra[32 : len-65] *)
+  (** bsc ParseValidators: extra[extraVanity : len(extra)-extraSeal], then len % addressLength (regenerated constants) *)
   Definition parse_validators (hd : header) : outcome unit :=
-    if hd_extra_len hd <? 97 then Panic
-    else if (hd_extra_len hd - 97) mod 20 =? 0 then Ok tt else Err.
+    if hd_extra_len hd <? bsc_extra_vanity + bsc_extra_seal then Panic
+    else if (hd_extra_len hd - (bsc_extra_vanity + bsc_extra_seal)) mod bsc_address_length =? 0 then Ok tt else Err.
 
   Definition bsc_set_signer (st : cstore) (hd : header) : cstore :=
     {| c_client := c_client st; c_cons := c_cons st; c_signers := sorted_insert (signer_suffix (hd_height hd)) (c_signers st) |}.
@@ -528,7 +566,9 @@ Section Clients.
         | Some _ => c <- unpack cs ;; k <- unpack kst ;; _ <- cons_type_ok old c k ;;
                     st' <- toggle_client old (xget s chain) c k ;; Ok (xset s chain st')
         end
-    | PRelayer _ _ _ _ _ => Ok s      (* RegisterRelayers: store.Set([]byte(address), ...), address is a valid bech32 string *)
+    | PRelayer _ _ addr _ _ _ =>
+        (* RegisterRelayers: RelayerStore.Set([]byte(address), ...): the prefix store panics "key is nil" on an empty key *)
+        if lenN addr =? 0 then Panic else Ok s
     end.
   Definition handle_xprop := handle_xprop_gen false.
   Definition handle_xprop_old := handle_xprop_gen true.
@@ -599,11 +639,16 @@ Fixpoint all_ok {A} (f : A -> outcome unit) (l : list A) : outcome unit :=
 (** PacketState.Validate + the extra emptiness test for acknowledgements and commitments.  After the JSON
     decoding of a genesis file a present-but-empty data field is an empty, non-nil slice: [Data == nil] (absent
     field) does not occur in the generated files, and receipts with empty data are accepted. *)
-Definition gx_validate_packet (need_data : bool) (p : gx_packet) : outcome unit :=
+Definition packet_env (p : gx_packet) : genv :=
+  {| g_len := [("Data", gp_data_len p); ("SrcChain", lenN (gp_src p)); ("DstChain", lenN (gp_dst p))]%string; g_fld := [("Sequence", gp_seq p)]%string |}.
+
+(** [guards]: the regenerated per-element guards of the loop of packet GenesisState.Validate the entry belongs to
+    (acknowledgements, commitments: data must not be empty; receipts: none). *)
+Definition gx_validate_packet (guards : list gcond) (p : gx_packet) : outcome unit :=
   if negb (identifier_ok (gp_src p)) then Err
   else if negb (identifier_ok (gp_dst p)) then Err
   else if gp_seq p =? 0 then Err
-  else if need_data && (gp_data_len p =? 0) then Err else Ok tt.
+  else if guards_reject (packet_env p) guards then Err else Ok tt.
 
 Definition gx_validate_seq (p : gx_packet) : outcome unit :=
   if negb (identifier_ok (gp_src p)) then Err
@@ -614,6 +659,11 @@ Definition gx_validate_seq (p : gx_packet) : outcome unit :=
 Definition gx_decodes (g : gx_genesis) : bool :=
   forallb (fun c : bytes * any client_state => negb (is_wrong (snd c))) (gx_clients g)
   && forallb (fun cc : bytes * list (height * any cons_state) => forallb (fun hc : height * any cons_state => negb (is_wrong (snd hc))) (snd cc)) (gx_consensus g).
+
+(** GenesisMetadata.Validate: the regenerated guards (empty key, empty value). *)
+Definition metadata_env (kv : bytes * N) : genv := {| g_len := [("Key", lenN (fst kv)); ("Value", snd kv)]%string; g_fld := [] |}.
+Definition gx_validate_metadata (kv : bytes * N) : outcome unit :=
+  if guards_reject (metadata_env kv) genesis_metadata_validate_guards then Err else Ok tt.
 
 (** [relayer_check]: whether GenesisState.Validate looks at the relayers (it does since d9df21a; it did not at the
     pinned commit). *)
@@ -628,13 +678,13 @@ Definition gx_validate_gen (relayer_check : bool) (g : gx_genesis) : outcome uni
   _ <- all_ok (fun m : bytes * list (bytes * N) =>
                  match assoc_type types (fst m) with
                  | None => Err
-                 | Some _ => all_ok (fun kv : bytes * N => if (lenN (fst kv) =? 0) || (snd kv =? 0) then Err else Ok tt) (snd m)   (* GenesisMetadata.Validate *)
+                 | Some _ => all_ok gx_validate_metadata (snd m)
                  end) (gx_metadata g) ;;
   _ <- (if relayer_check && negb (forallb relayer_ok (gx_relayers g)) then Err else Ok tt) ;;
   _ <- (if identifier_ok (gx_native g) then Ok tt else Err) ;;
-  _ <- all_ok (gx_validate_packet true) (gx_acks g) ;;
-  _ <- all_ok (gx_validate_packet false) (gx_receipts g) ;;
-  _ <- all_ok (gx_validate_packet true) (gx_commitments g) ;;
+  _ <- all_ok (gx_validate_packet packet_genesis_ack_guards) (gx_acks g) ;;
+  _ <- all_ok (gx_validate_packet []) (gx_receipts g) ;;
+  _ <- all_ok (gx_validate_packet packet_genesis_commitment_guards) (gx_commitments g) ;;
   all_ok gx_validate_seq (gx_seqs g).
 
 Definition gx_validate := gx_validate_gen true.
@@ -650,8 +700,12 @@ Definition gx_init (g : gx_genesis) : outcome unit :=
   _ <- all_ok (fun cc : bytes * list (height * any cons_state) =>
                  all_ok (fun hc : height * any cons_state => match snd hc with AnyVal _ => Ok tt | _ => Panic end) (snd cc)) (gx_consensus g) ;;
   (* RegisterRelayers: RelayerStore.Set([]byte(address), ...) *)
-  all_ok (fun r : gx_relayer => if rl_addr_len r =? 0 then Panic else Ok tt) (gx_relayers g).
-  (* packet.InitGenesis: formatted non-empty keys, decoded (non-nil) data: no panic site is reachable *)
+  _ <- all_ok (fun r : gx_relayer => if rl_addr_len r =? 0 then Panic else Ok tt) (gx_relayers g) ;;
+  (* packet.InitGenesis: SetPacketAcknowledgement / SetPacketCommitment store the data as the VALUE: store.Set panics
+     "value is nil" on a nil slice, which is what an absent data field decodes to (over-approximated: every empty
+     data); the keys are formatted and never empty *)
+  _ <- all_ok (fun p : gx_packet => if gp_data_len p =? 0 then Panic else Ok tt) (gx_acks g) ;;
+  all_ok (fun p : gx_packet => if gp_data_len p =? 0 then Panic else Ok tt) (gx_commitments g).
 
 (** The module state InitGenesis leaves behind, as far as the proposal handlers read it back: per
     listed client its client state (last entry wins), the consensus states (metadata written under
@@ -718,6 +772,9 @@ Fixpoint denoms_fresh (ds seen : list bytes) : option (list bytes) :=
   | d :: ds' => if mem d seen then None else denoms_fresh ds' (d :: seen)
   end.
 
+Definition ga_pair_env (p : ga_pair) : genv :=
+  {| g_len := [("Denoms", lenN (gp_denoms p)); ("ERC20Address", lenN (gp_erc20 p))]%string; g_fld := [] |}.
+
 Fixpoint ga_validate_pairs (old : bool) (l : list ga_pair) (seen_erc20 seen_denom : list bytes) : outcome unit :=
   match l with
   | [] => Ok tt
@@ -733,9 +790,9 @@ Fixpoint ga_validate_pairs (old : bool) (l : list ga_pair) (seen_erc20 seen_deno
             else ga_validate_pairs old t (gp_erc20 p :: seen_erc20) (d0 :: seen_denom)
         end
       else
-        match gp_denoms p with
-        | [] => Err
-        | _ =>
+        (* HEAD: the regenerated guards of the loop body (a pair without denominations is rejected) *)
+        if guards_reject (ga_pair_env p) aggregate_genesis_pair_guards then Err
+        else
             match denoms_fresh (gp_denoms p) seen_denom with
             | None => Err
             | Some seen =>
@@ -744,7 +801,6 @@ Fixpoint ga_validate_pairs (old : bool) (l : list ga_pair) (seen_erc20 seen_deno
                 else if negb (is_hex_address (gp_erc20 p)) then Err
                 else ga_validate_pairs old t (addr_key (gp_erc20 p) :: seen_erc20) seen
             end
-        end
   end.
 
 Definition ga_validate (l : list ga_pair) : outcome unit := ga_validate_pairs false l [] [].
